@@ -213,6 +213,95 @@ impl DynProp for MateScores {
     }
 }
 
+// ------------------------------------------- terminal positions with a tempting pseudo-legal move
+
+/// Stalemates and checkmates in which the side to move still has a pseudo-legal move that only a pin
+/// forbids - above all an en-passant capture that would uncover its king along the rank (two men
+/// leave the line at once) - are where "has a legal move" shortcuts go wrong. Mined by seeded
+/// construction (king, own pawn, the just double-stepped pawn and a rook or queen on one rank, a
+/// few guards around); everything is classified by the rules oracle.
+pub struct PinnedOnlyMoves;
+
+fn pinned_trial(i: u64) -> Option<Pos> {
+    use crate::oracle::rules::Kind;
+    let mut x = i.wrapping_mul(0x9E3779B97F4A7C15) ^ 0xc05_c05;
+    let mut r = |n: usize| (crate::runner::splitmix(&mut x) % n as u64) as usize;
+    let mut p = Pos::empty(Col::W);
+    // rank 5 (index 4): K, P, p in a row, the rook or queen further along the rank
+    let left = r(2) == 0;
+    let kf = if left { r(3) } else { 7 - r(3) };
+    let step: isize = if left { 1 } else { -1 };
+    let sq = |f: isize| (32 + f) as usize;
+    let (k, own, pushed) = (kf as isize, kf as isize + step, kf as isize + 2 * step);
+    let far = if left { pushed + 1 + r((7 - pushed) as usize) as isize } else { pushed - 1 - r(pushed as usize) as isize };
+    if !(0..8).contains(&far) || far == pushed {
+        return None;
+    }
+    p.b[sq(k)] = Some((Col::W, Kind::K));
+    p.b[sq(own)] = Some((Col::W, Kind::P));
+    p.b[sq(pushed)] = Some((Col::B, Kind::P));
+    p.b[sq(far)] = Some((Col::B, if r(2) == 0 { Kind::R } else { Kind::Q }));
+    p.ep = Some(40 + pushed as usize);
+    // black king somewhere, guards around the white king
+    let bk = r(64);
+    if p.b[bk].is_some() {
+        return None;
+    }
+    p.b[bk] = Some((Col::B, Kind::K));
+    for _ in 0..(2 + r(4)) {
+        let kind = [Kind::P, Kind::P, Kind::N, Kind::B, Kind::R, Kind::Q][r(6)];
+        let d = KING_D[r(8)];
+        let near = off(sq(k), d).and_then(|a| off(a, KING_D[r(8)])).unwrap_or(r(64));
+        if p.b[near].is_none() && !(kind == Kind::P && (near / 8 == 0 || near / 8 == 7)) && near / 8 != 4 {
+            p.b[near] = Some((Col::B, kind));
+        }
+    }
+    // the squares the double step passed must be empty
+    if p.b[40 + pushed as usize].is_some() || p.b[48 + pushed as usize].is_some() {
+        return None;
+    }
+    if !p.is_legal_position() || p.has_legal_move() {
+        return None;
+    }
+    // terminal, and a pseudo-legal move exists that is not a king move
+    if !p.pseudo().iter().any(|m| m.kind != Kind::K) {
+        return None;
+    }
+    Some(p)
+}
+
+impl DynProp for PinnedOnlyMoves {
+    fn name(&self) -> &'static str {
+        "terminal_with_pinned_pseudo_moves"
+    }
+    fn run(&self, ctx: &Ctx, cases: u64) {
+        let found: std::sync::Mutex<Vec<(u64, Pos)>> = std::sync::Mutex::new(vec![]);
+        par_range(ctx, "terminal_with_pinned_pseudo_moves", cases, |i, loc| {
+            let Some(p) = pinned_trial(i) else { return Ok(()) };
+            found.lock().unwrap().push((i, p.clone()));
+            for q in [p.clone(), p.mirror()] {
+                check_eval(&q, loc).map_err(|e| (json!({"index": i}), e))?;
+                loc.nontrivial(&q.fen4());
+            }
+            loc.class(if p.in_check(p.stm) { "pinned:checkmate" } else { "pinned:stalemate" });
+            if p.pseudo().iter().any(|m| m.ep) {
+                loc.class("pinned:en_passant_capture_forbidden_by_a_pin");
+            }
+            Ok(())
+        });
+        let mut v = found.into_inner().unwrap();
+        v.sort_by_key(|x| x.0);
+        ctx.extra("pinned_pool", json!({"trials": cases, "positions": v.len(), "examples": v.iter().take(5).map(|x| x.1.fen()).collect::<Vec<_>>()}));
+    }
+    fn replay(&self, _: &Ctx, case: &Value) -> Result<(), String> {
+        let i = case["index"].as_u64().ok_or("no index")?;
+        let Some(p) = pinned_trial(i) else { return Err("the index does not give a position".into()) };
+        let mut loc = Local::new();
+        check_eval(&p, &mut loc)?;
+        check_eval(&p.mirror(), &mut loc)
+    }
+}
+
 pub fn plan(ctx: &Ctx) -> Plan {
     let t = ctx.tier;
     Plan {
@@ -220,6 +309,7 @@ pub fn plan(ctx: &Ctx) -> Plan {
             (Box::new(MateScores), 10_001),
             (Box::new(SmallFamilies), 1),
             (Box::new(EvalGenerated), t.pick(250_000, 6_000_000)),
+            (Box::new(PinnedOnlyMoves), t.pick(3_000_000, 60_000_000)),
         ],
         rule: "every legal position of the complete K+X v K families (exhaustive), every position of weighted random \
                games, constructed positions and all their successors (where natural many-piece mates and stalemates \
